@@ -60,8 +60,9 @@ type SymElem struct {
 type Str struct {
 	b []byte  // concrete bytes (value at symbolic positions is meaningless)
 	t []*Term // nil if fully concrete; otherwise t[i] != nil marks a symbolic byte
-	// opaque: contents unknown (result of formatting a symbolic value with
-	// value-dependent width); only minLen is known.
+	// opaque: b/t hold only a known prefix; an unknown tail follows (result of
+	// formatting a symbolic value with value-dependent width); the total length
+	// is at least minLen.
 	opaque bool
 	minLen int
 }
@@ -103,13 +104,16 @@ func (s Str) Slice(i, j int) Str {
 }
 
 func concatStr(a, b Str) Str {
-	if a.opaque || b.opaque {
-		return Str{opaque: true, minLen: a.minLenOf() + b.minLenOf()}
+	if a.opaque {
+		// known prefix stays a's; only the minimum length grows
+		r := a
+		r.minLen = a.minLen + b.minLenOf()
+		return r
 	}
 	if len(a.b) == 0 {
 		return b
 	}
-	if len(b.b) == 0 {
+	if len(b.b) == 0 && !b.opaque {
 		return a
 	}
 	r := Str{b: make([]byte, 0, len(a.b)+len(b.b))}
@@ -123,6 +127,10 @@ func concatStr(a, b Str) Str {
 		if b.t != nil {
 			copy(r.t[len(a.b):], b.t)
 		}
+	}
+	if b.opaque {
+		r.opaque = true
+		r.minLen = len(a.b) + b.minLen
 	}
 	return r
 }
@@ -144,6 +152,11 @@ type strBuilder struct {
 }
 
 func (sb *strBuilder) addByte(v Value) {
+	if sb.opaque {
+		sb.minLen++
+		return
+	}
+	sb.minLen++
 	switch x := v.(type) {
 	case int64:
 		sb.b = append(sb.b, byte(x))
@@ -166,12 +179,11 @@ func (sb *strBuilder) addByte(v Value) {
 }
 
 func (sb *strBuilder) addStr(s Str) {
-	if s.opaque {
-		sb.opaque = true
-		sb.minLen += s.minLen
+	if sb.opaque {
+		sb.minLen += s.minLenOf()
 		return
 	}
-	sb.minLen += len(s.b)
+	sb.minLen += s.minLenOf()
 	sb.b = append(sb.b, s.b...)
 	if s.t != nil {
 		sb.t = append(sb.t, s.t...)
@@ -186,18 +198,23 @@ func (sb *strBuilder) addStr(s Str) {
 			sb.t = append(sb.t, nil)
 		}
 	}
+	if s.opaque {
+		sb.opaque = true
+	}
 }
 
 func (sb *strBuilder) addGo(s string) { sb.addStr(mkStr(s)) }
 
 func (sb *strBuilder) str() Str {
+	r := Str{b: sb.b}
+	if sb.sym {
+		r.t = sb.t
+	}
 	if sb.opaque {
-		return Str{opaque: true, minLen: sb.minLen}
+		r.opaque = true
+		r.minLen = sb.minLen
 	}
-	if !sb.sym {
-		return Str{b: sb.b}
-	}
-	return Str{b: sb.b, t: sb.t}
+	return r
 }
 
 // Map is a Go map with concrete keys.
